@@ -127,6 +127,27 @@ func encKVs(kvs []kv) string {
 	return strings.Join(parts, " ")
 }
 
+// harnessPathOf: the harness's own reading of "the request path" of a request target: everything
+// before the first '?' (and '#'), percent-decoded; an absolute-form target loses scheme and authority
+func harnessPathOf(u string) string {
+	p := u
+	if i := strings.IndexAny(p, "?#"); i >= 0 {
+		p = p[:i]
+	}
+	if i := strings.Index(p, "://"); i > 0 && !strings.HasPrefix(p, "/") {
+		rest := p[i+3:]
+		if j := strings.Index(rest, "/"); j >= 0 {
+			p = rest[j:]
+		} else {
+			p = ""
+		}
+	}
+	if d, err := url.PathUnescape(p); err == nil {
+		return d
+	}
+	return p
+}
+
 func harnessTrusted(nets []string, text string) bool {
 	t := strings.TrimSpace(text)
 	if i := strings.Index(t, ","); i >= 0 {
@@ -600,12 +621,7 @@ func (e *testEnv) serveCase(rs reqSpec, plan *faultPlan, tag string) (*respView,
 	var pathTbl []string
 	subjects := map[string]bool{}
 	for _, u := range uris {
-		p := u
-		if pu, err := url.Parse(u); err == nil {
-			p = pu.Path
-		} else if i := strings.Index(u, "?"); i >= 0 {
-			p = u[:i]
-		}
+		p := harnessPathOf(u)
 		pathTbl = append(pathTbl, hx(u)+":"+hx(p))
 		subjects[u] = true
 		subjects[p] = true
